@@ -306,7 +306,9 @@ class SimCluster:
                       f"transmit {ds!r} {source}->{target}; log={self.log}")
             raise Abort()
         if ds in self.has[target]:
-            cmd["answered"] = True  # redundant transfer: the target stays silent (store conflict)
+            # redundant transfer: the target's data server stays silent on the store conflict, so nothing ever tells the
+            # controller when the source has served it -- the command stays unanswered for the rest of the run
+            cmd["redundant"] = True
             return
         self.store[target][memory_mod.ds2shmid(ds)] = self._ds_bytes(source, ds)
         self.has[target].add(ds)
@@ -348,7 +350,7 @@ class SimCluster:
                     cause = "second fetch of the same dataset" if c["nth"] >= 1 else "first fetch of the dataset"
                     self.viol("C04", "purge_with_unanswered_fetch", cause, f"purge {ds!r}@{host} while fetch #{c['idx']} unanswered; log={self.log}")
                 else:
-                    self.viol("C04", "purge_with_unanswered_transmit", "transfer from that host not yet reported", f"purge {ds!r}@{host} while transmit #{c['idx']} to {c['dst']} unanswered; log={self.log}")
+                    self.viol("C04", "purge_with_unanswered_transmit", "redundant transfer (target already had the dataset or a transfer in flight): never answered" if c.get("redundant") else "transfer from that host not yet reported", f"purge {ds!r}@{host} while transmit #{c['idx']} to {c['dst']} unanswered; log={self.log}")
         if host not in self.has:
             self.viol("C04", "purge_unknown_host", "host not in cluster", f"{host}")
             raise Abort()
